@@ -724,10 +724,33 @@ package rsm
 // the membership stored in a snapshot's metadata is a private copy: later config changes must
 // not show through into a snapshot whose index precedes them
 //@ func deepCopyMembership [C08]
-//@ trusted copies the four member maps into freshly allocated maps (four three-line loops)
+//@ noframe
 //@ ensures fresh(result.Addresses) && fresh(result.NonVotings) && fresh(result.Witnesses) && fresh(result.Removed) && result.ConfigChangeId == m.ConfigChangeId
+// ... and it is a faithful copy: the same members with the same addresses, the same removed ids
+//@ ensures forall k uint64 :: (k in result.Addresses) == (k in m.Addresses) && (k in m.Addresses ==> result.Addresses[k] == m.Addresses[k])
+//@ ensures forall k uint64 :: (k in result.NonVotings) == (k in m.NonVotings) && (k in m.NonVotings ==> result.NonVotings[k] == m.NonVotings[k])
+//@ ensures forall k uint64 :: (k in result.Witnesses) == (k in m.Witnesses) && (k in m.Witnesses ==> result.Witnesses[k] == m.Witnesses[k])
+//@ ensures forall k uint64 :: (k in result.Removed) == (k in m.Removed) && (k in m.Removed ==> result.Removed[k])
+//@ loop 1 invariant fresh(c.Addresses) && fresh(c.NonVotings) && fresh(c.Witnesses) && fresh(c.Removed) && c.ConfigChangeId == m.ConfigChangeId && (forall k uint64 :: !(k in c.Removed)) && (forall k uint64 :: !(k in c.NonVotings)) && (forall k uint64 :: !(k in c.Witnesses))
+//@ loop 1 invariant forall k uint64 :: (k in c.Addresses) == (k in m.Addresses && visited(k)) && (k in c.Addresses ==> c.Addresses[k] == m.Addresses[k])
+//@ loop 2 invariant fresh(c.Addresses) && fresh(c.NonVotings) && fresh(c.Witnesses) && fresh(c.Removed) && c.ConfigChangeId == m.ConfigChangeId && (forall k uint64 :: !(k in c.NonVotings)) && (forall k uint64 :: !(k in c.Witnesses))
+//@ loop 2 invariant forall k uint64 :: (k in c.Addresses) == (k in m.Addresses) && (k in m.Addresses ==> c.Addresses[k] == m.Addresses[k])
+//@ loop 2 invariant forall k uint64 :: (k in c.Removed) == (k in m.Removed && visited(k)) && (k in c.Removed ==> c.Removed[k])
+//@ loop 3 invariant fresh(c.Addresses) && fresh(c.NonVotings) && fresh(c.Witnesses) && fresh(c.Removed) && c.ConfigChangeId == m.ConfigChangeId && (forall k uint64 :: !(k in c.Witnesses))
+//@ loop 3 invariant forall k uint64 :: (k in c.Addresses) == (k in m.Addresses) && (k in m.Addresses ==> c.Addresses[k] == m.Addresses[k])
+//@ loop 3 invariant forall k uint64 :: (k in c.Removed) == (k in m.Removed) && (k in m.Removed ==> c.Removed[k])
+//@ loop 3 invariant forall k uint64 :: (k in c.NonVotings) == (k in m.NonVotings && visited(k)) && (k in c.NonVotings ==> c.NonVotings[k] == m.NonVotings[k])
+//@ loop 4 invariant fresh(c.Addresses) && fresh(c.NonVotings) && fresh(c.Witnesses) && fresh(c.Removed) && c.ConfigChangeId == m.ConfigChangeId
+//@ loop 4 invariant forall k uint64 :: (k in c.Addresses) == (k in m.Addresses) && (k in m.Addresses ==> c.Addresses[k] == m.Addresses[k])
+//@ loop 4 invariant forall k uint64 :: (k in c.Removed) == (k in m.Removed) && (k in m.Removed ==> c.Removed[k])
+//@ loop 4 invariant forall k uint64 :: (k in c.NonVotings) == (k in m.NonVotings) && (k in m.NonVotings ==> c.NonVotings[k] == m.NonVotings[k])
+//@ loop 4 invariant forall k uint64 :: (k in c.Witnesses) == (k in m.Witnesses && visited(k)) && (k in c.Witnesses ==> c.Witnesses[k] == m.Witnesses[k])
 //@ func (m *membership) get [C08 C07]
 //@ ensures fresh(result.Addresses) && fresh(result.NonVotings) && fresh(result.Witnesses) && fresh(result.Removed) && result.ConfigChangeId == m.members.ConfigChangeId
+//@ ensures forall k uint64 :: (k in result.Addresses) == (k in m.members.Addresses) && (k in m.members.Addresses ==> result.Addresses[k] == m.members.Addresses[k])
+//@ ensures forall k uint64 :: (k in result.NonVotings) == (k in m.members.NonVotings) && (k in m.members.NonVotings ==> result.NonVotings[k] == m.members.NonVotings[k])
+//@ ensures forall k uint64 :: (k in result.Witnesses) == (k in m.members.Witnesses) && (k in m.members.Witnesses ==> result.Witnesses[k] == m.members.Witnesses[k])
+//@ ensures forall k uint64 :: (k in result.Removed) == (k in m.members.Removed) && (k in m.members.Removed ==> result.Removed[k])
 
 // an exported snapshot always carries the full state machine data (it is what a repaired shard
 // is rebuilt from); only witnesses and ordinary on-disk snapshots are dummies
